@@ -8,6 +8,8 @@ That the library call made with these keywords gives the same constraints / verd
 direct call on the loaded DataFrame, and that failing invocations leave no output file, is runtime behaviour
 (pandas, file system, process exit) decided by the oracle.  Proofs: Lemmas/Flags.lean.
 -/
+import TddaVerif.Model.Applicable
+import TddaVerif.Lemmas.Applicable
 import TddaVerif.Model.Flags
 import TddaVerif.Generated.Flags
 import TddaVerif.Props.C17Spec
@@ -141,5 +143,34 @@ example : run .detect (tableOf Generated.Flags.detectOpts)
             ("in_place", .b false), ("df_path", .s "in.csv".toList), ("constraints_path", .s "c.tdda".toList),
             ("outpath", .s "o.csv".toList)] := by decide +kernel
 example : run .verify (tableOf Generated.Flags.verifyOpts) ["in.csv".toList, "-a".toList, "-f".toList] = .reject := by decide +kernel
+
+/-! ### dispatch: which invocations the pandas front-end takes (pd/extension.py applicable, console.py) -/
+open TddaVerif.Applicable in
+/-- the dispatch test does not depend on where the input stands among the arguments -/
+theorem applicable_perm (exts : List TddaVerif.Py.Line) (argv argv' : List TddaVerif.Py.Line) (h : argv.Perm argv') :
+    applicable exts argv = applicable exts argv' := AppLemmas.applicable_perm exts argv argv' h
+
+open TddaVerif.Applicable in
+/-- flags and their values before, between or after the file arguments change nothing -/
+theorem applicable_append (exts : List TddaVerif.Py.Line) (xs ys : List TddaVerif.Py.Line) :
+    applicable exts (xs ++ ys) = (applicable exts xs || applicable exts ys) := AppLemmas.applicable_append exts xs ys
+
+open TddaVerif.Applicable in
+/-- one flat-file argument (or `-`) anywhere is enough -/
+theorem applicable_of_mem (exts : List TddaVerif.Py.Line) (argv : List TddaVerif.Py.Line) (a : TddaVerif.Py.Line) (ha : a ∈ argv)
+    (h : a = ['-'] ∨ exts.contains (splitextExt a) = true) : applicable exts argv = true :=
+  AppLemmas.applicable_of_mem exts argv a ha h
+
+open TddaVerif.Applicable in
+/-- ... and without one the command is not taken -/
+theorem not_applicable_iff (exts : List TddaVerif.Py.Line) (argv : List TddaVerif.Py.Line) :
+    applicable exts argv = false ↔ ∀ a ∈ argv, a ≠ ['-'] ∧ exts.contains (splitextExt a) = false :=
+  AppLemmas.not_applicable_iff exts argv
+
+/-- **Tie**: the extensions the model is instantiated with are the ones in pd/extension.py today -/
+theorem tie_applicable_exts :
+    TddaVerif.Generated.Flags.applicableExts =
+      [".csv".toList, ".psv".toList, ".tsv".toList, ".parquet".toList, ".json".toList, ".yaml".toList] :=
+  AppLemmas.tie_applicable_exts
 
 end TddaVerif.Props.C17
